@@ -233,6 +233,7 @@ Proof. split; vm_compute; reflexivity. Qed.
 PROPS['C15'] = dict(
     title='C15 - byte transforms invert exactly and match their definition',
     theorems=[
+        ('TransformFacts', 'xor_cycle_nth', 'The definition, byte by byte, for data of ANY length and any non-empty key: output byte i is data byte i XOR key byte (i mod |key|) - the key is cycled to the very end.'),
         ('TransformFacts', 'xor_cycle_involutive', 'Cyclic XOR with any non-empty key, any data: applying it twice is the identity (build inverts parse).'),
         ('TransformFacts', 'xor_single_is_cycle', 'The single-byte shortcut equals the general cyclic definition.'),
         ('TransformFacts', 'xor_zero_is_identity', 'The all-zero-key shortcut equals the general cyclic definition.'),
